@@ -1,6 +1,7 @@
 import functools
 
 from dask.dataframe import methods
+from dask.dataframe.core import is_series_like
 from dask.utils import M
 
 from dask_expr._expr import Blockwise, Expr, Projection, plain_column_projection
@@ -79,6 +80,7 @@ class CumulativeFinalize(Expr):
     def _layer(self) -> dict:
         dsk = {}
         frame, previous_partitions = self.frame, self.previous_partitions
+        skipna = previous_partitions.skipna is not False
         dsk[(self._name, 0)] = (frame._name, 0)
 
         intermediate_name = self._name + "-intermediate"
@@ -92,24 +94,39 @@ class CumulativeFinalize(Expr):
                     self.aggregator,
                     (intermediate_name, i - 1),
                     (previous_partitions._name, i - 1),
+                    skipna,
                 )
             dsk[(self._name, i)] = (
                 _cum_aggregate_apply,
                 self.aggregator,
                 (self.frame._name, i),
                 (intermediate_name, i),
+                skipna,
             )
         return dsk
 
 
-def _cum_aggregate_apply(aggregate, x, y):
+def _cum_aggregate_apply(aggregate, x, y, skipna=True):
     """Combine two cumulation results; ``None`` stands for "nothing so far"
     (all previous partitions were empty or null)."""
     if y is None:
         return x
     if x is None:
         return y
-    return aggregate(x, y)
+    result = aggregate(x, y)
+    if skipna and is_series_like(y) and (
+        not is_series_like(x) or x.index.equals(y.index)
+    ):
+        # Frames carry one value per column. A column whose earlier values
+        # were all null carries NaN, which must not poison the later values
+        missing = y.isna()
+        if is_series_like(x):
+            result = result.where(~missing, x).where(x.notna(), y)
+        elif missing.any():
+            columns = list(missing[missing].index)
+            result = result.copy()
+            result[columns] = x[columns]
+    return result
 
 
 class CumSum(CumulativeAggregations):
